@@ -478,6 +478,19 @@ async def run_async(world, pspec, args, kwargs):
                 with trio.CancelScope(shield=True):
                     await trio.sleep(cleanup["dur"])
                 LOG("cleanup-done", pid=pid, gen=world.gen, how="shielded")
+            if cleanup["kind"] == "fail_on_cancel":
+                # a payload that answers its cancellation with a failure of its own: a cleanup that raises,
+                # or a handler that turns the cancellation into a return value
+                if cleanup["how"] == "raise":
+                    exc = make_exception(cleanup["what"])
+                    world.raised[pid] = exc
+                    LOG("fail-on-cancel", pid=pid, gen=world.gen, how="raise", what=cleanup["what"])
+                    raise exc
+                # a value of its own, so that an orphaned-return error can be traced back to this payload
+                value = {"str": "status of %s" % pid, "dict": {"status": pid}, "list": [pid]}[cleanup["what"]]
+                world.returned[pid] = value
+                LOG("fail-on-cancel", pid=pid, gen=world.gen, how="return", what=cleanup["what"])
+                return value
             if cleanup["kind"] == "absorb":
                 # a stubborn worker: it treats a cancellation as an interrupted step and goes back to waiting;
                 # only after `times` further cancellations does it give up
